@@ -38,6 +38,7 @@ type Ctx struct {
 	sch            *sched   // the C17 scheduler while its concurrent phase runs
 	amb            *sched   // ambient scheduler: exists while goroutines started by the package are alive outside a C17 run
 	goPanics       []string // panics that ended a goroutine started by the package
+	raceMsg        string   // first data race the detector found among the package's goroutines (ambient scheduler)
 	deadlocked     bool     // the scheduler declared a deadlock during the guarded call in progress
 	childStepLimit bool     // such a goroutine hit the step bound or gave up in a declared deadlock
 	tempSeq        int
@@ -179,6 +180,15 @@ func installHooks(c *Ctx) {
 			}
 			s.spawn(f)
 		},
+		TaskID: func() int {
+			if c.sch != nil && c.sch.cur != nil {
+				return c.sch.cur.id
+			}
+			if c.amb != nil && c.amb.cur != nil {
+				return c.amb.cur.id
+			}
+			return 0
+		},
 		Progress: func() {
 			if c.sch != nil {
 				c.sch.progress()
@@ -301,6 +311,7 @@ func installHooks(c *Ctx) {
 		verifsim.H.Blocked = nil
 		verifsim.H.Go = nil
 		verifsim.H.Progress = nil
+		verifsim.H.TaskID = nil
 	}
 }
 
@@ -681,6 +692,16 @@ func (c *Ctx) afterCall() (panicMsg string, nonterm bool) {
 	if len(c.goPanics) > 0 {
 		panicMsg = c.goPanics[0]
 	}
+	if c.raceMsg != "" && c.Prop != "C17" {
+		// goroutine safety is C17's subject: elsewhere a race among the package's goroutines is counted, not judged
+		c.C["data_races_seen_not_judged_by_this_check"]++
+		c.raceMsg = ""
+	}
+	if c.raceMsg != "" && panicMsg == "" {
+		// (reported like a failure of the call during which the second access happened)
+		panicMsg = "DATA RACE: " + c.raceMsg
+		c.raceMsg = ""
+	}
 	nonterm = c.childStepLimit
 	c.goPanics, c.childStepLimit = nil, false
 	return
@@ -691,5 +712,30 @@ func (c *Ctx) afterCall() (panicMsg string, nonterm bool) {
 func (c *Ctx) killGoroutines() {
 	if c.amb != nil {
 		c.amb.killAll()
+	}
+}
+
+// raceArmed: the happens-before detector (R8) is used only when every synchronisation the tree
+// uses is one whose edges the runtime reports; otherwise an unreported edge could make an ordered
+// pair of accesses look like a race.
+func raceArmed() bool {
+	return facts.AccSites > 0 && len(facts.Unmodelled) == 0 && len(facts.RaceUnmodelled) == 0 && !lockHooks
+}
+
+func armRace(report func(string)) {
+	if !raceArmed() {
+		return
+	}
+	r := verifsim.NewRaceState()
+	r.Names = mxj.VerifRaceNames
+	r.Report = report
+	r.SiteName = siteName
+	verifsim.Race = r
+}
+
+func disarmRace(c *Ctx) {
+	if r := verifsim.Race; r != nil {
+		c.C["race_detector_access_checks"] += r.Checks
+		verifsim.Race = nil
 	}
 }
